@@ -62,10 +62,13 @@ Section RestProofs.
   Lemma rInv_reach capacity ops : Inv C (core (rrun C ccd rcp (rinit C capacity) ops)).
   Proof. apply rInv_run. cbn. apply Inv_init. Qed.
 
+  Lemma rSInv_reach capacity ops : SInv C (core (rrun C ccd rcp (rinit C capacity) ops)).
+  Proof. rewrite rrun_core. apply SInv_run. cbn. apply SInv_init. Qed.
+
   (* ---- served as w: w exists, and either the Basic password verifies against w's stored hash and w is enabled,
           or the cookie names a live session issued for w that carries w's current credential epoch ---- *)
   Lemma rest_served_user_sound (rs : rstate) public cr w :
-    Inv C (core rs) -> decide rs public cr = Served (Some w) ->
+    Inv C (core rs) -> SInv C (core rs) -> decide rs public cr = Served (Some w) ->
     exists usr, alookup w (users (core rs)) = Some usr /\
       ((exists u p, cr_basic cr = Some (u, p) /\ u <> 0 /\ w = u /\ u_disabled usr = false /\
           match u_hash usr with Some h => verify C h p = true | None => p = 0 end /\
@@ -74,13 +77,13 @@ Section RestProofs.
           alookup sid (sessions (core rs)) = Some s /\ now (core rs) < s_expires s /\ s_user s = w /\
           s_uuid s = u_uuid usr /\ (ccd = true -> u_disabled usr = false))).
   Proof.
-    intros I H. pose proof (rest_auth_sound rs public cr) as S. rewrite H in S.
+    intros I SI H. pose proof (rest_auth_sound rs public cr) as S. rewrite H in S.
     destruct S as [[u [p [Eb [Hu E]]]]|[Eb [sid [Ec E]]]].
     - destruct (password_auth_sound C OK ccd rcp (core rs) (AuthPassword u p None) u p w I) as [-> [usr [Eu [Ed [Hv Hk]]]]];
         [left; exists None; reflexivity | exact E |].
       exists usr. split; [exact Eu|]. left. exists u, p. repeat split; auto.
     - destruct (session_auth_sound C ccd rcp (core rs) sid (AuthCookie sid) w) as [s [usr [Es [Hl [Hw [Eu [Euu Hd]]]]]]];
-        [left; reflexivity | exact E |].
+        [exact SI | left; reflexivity | exact E |].
       exists usr. split; [exact Eu|]. right. split; [exact Eb|]. exists sid, s. repeat split; auto.
       intros Hc. apply Hd; [exact Hc | left; reflexivity].
   Qed.
